@@ -228,3 +228,87 @@ V("C01-pop-ge", "C01", ["C01.R9"], [(T2A, "                            operator_
 V("C01-pop-and-or", "C01", ["C01.R9"], [(T2A, "                            == operator.precedence\n                            and operator.associativity is Operator.Associativity.LEFT", "                            == operator.precedence\n                            or operator.associativity is Operator.Associativity.LEFT")])
 V("C01-pop-flip-equiv", "C01", [], [(T2A, "                            operator_stack[-1].operator.precedence > operator.precedence\n", "                            operator.precedence < operator_stack[-1].operator.precedence\n")])
 V("C01-pop-no-bracket-test", "C01", ["C01.R9"], [(T2A, "                        and operator_stack[-1].token.kind is not Token.Kind.CONTEXT\n                        and (", "                        and (")])
+
+# ----------------------------------------------------------------------------------------- C14
+CODE = "formulaic/utils/code.py"
+TOKENIZE = "formulaic/parser/algos/tokenize.py"
+V("C14-revert-bracket-loop", "C14", ["C14.R2"], [(T2A, """                while (
+                    operator_stack
+                    and operator_stack[-1].token.kind is not Token.Kind.CONTEXT
+                ):
+                    output_queue = operate(operator_stack.pop(), output_queue)""", """                while operator_stack and operator_stack[-1].token != starting_token:
+                    output_queue = operate(operator_stack.pop(), output_queue)""")], "origin: revert fb87a45 ('(a]' -> AttributeError)")
+V("C14-final-loop-no-bracket-test", "C14", ["C14.R2"], [(T2A, """        if operator_stack[-1].token.kind is Token.Kind.CONTEXT:
+            raise exc_for_token(
+                operator_stack[-1].token, "Could not find matching context marker."
+            )
+        output_queue = operate(operator_stack.pop(), output_queue)""", """        output_queue = operate(operator_stack.pop(), output_queue)""")], "unclosed '(' applied as an operator")
+V("C14-revert-nested-empty", "C14", ["C14.R3"], [(PARSER, """            if not parents:
+                raise FormulaSyntaxError(
+                    "The parent term set of the `/` and `%in%` operators must not be empty."
+                )
+""", "")], "origin: revert of the '(a-a)/b' fix")
+V("C14-nested-guard-valueerror", "C14", ["C14.R1"], [(PARSER, """                raise FormulaSyntaxError(
+                    "The parent term set of the `/` and `%in%` operators must not be empty."
+                )""", """                raise ValueError(
+                    "The parent term set of the `/` and `%in%` operators must not be empty."
+                )""")])
+V("C14-revert-power-positive", "C14", ["C14.R3"], [(PARSER, "                return exponent if exponent > 0 else None", "                return exponent")],
+  "origin: revert of the positivity part of the `**` fix (a**(0) -> StopIteration/TypeError)")
+V("C14-revert-power-empty", "C14", ["C14.R3"], [(PARSER, "exponent = parse_exponent(next(iter(power))) if len(power) == 1 else None", "exponent = parse_exponent(next(iter(power)))")],
+  "origin: revert of the emptiness part of the `**` fix")
+V("C14-revert-power-literal-eval", "C14", ["C14.R6"], [(PARSER, """                try:
+                    exponent = ast.literal_eval(term.factors[0].expr)
+                except (ValueError, SyntaxError):
+                    return None""", """                exponent = ast.literal_eval(term.factors[0].expr)""")], "origin: revert (a**1.5.2 -> bare SyntaxError)")
+V("C14-revert-context-key", "C14", ["C14.R4"], [(PARSER, """        context["__formulaic_variables_used_lhs__"] = [
+            variable
+            for token in tokens[:rhs_index]
+            for variable in token.required_variables
+        ]
+""", """        if self.include_intercept:
+            context["__formulaic_variables_used_lhs__"] = [
+                variable
+                for token in tokens[:rhs_index]
+                for variable in token.required_variables
+            ]
+""")], "origin: revert 5f2f24a (no-intercept parser, 'y ~ .' -> KeyError)")
+V("C14-revert-empty-name", "C14", ["C14.R7"], [(CODE, "    if not base_name or base_name[0].isdigit():", "    if base_name[0].isdigit():")], "origin: revert 775a676")
+V("C14-tokenizer-valueerror", "C14", ["C14.R1"], [(TOKENIZE, """    if quote_context:
+        raise exc_for_token(
+            token,
+            message=""", """    if quote_context:
+        raise ValueError(
+            token,
+            message""" + "=")], analysis_error_ok=False)
+V("C14-exc-errcls-runtime", "C14", ["C14.R1"], [(T2A, """                    raise exc_for_token(
+                        token, "Could not find matching context marker."
+                    )""", """                    raise exc_for_token(
+                        token, "Could not find matching context marker.", errcls=RuntimeError
+                    )""")])
+V("C14-exc-direct-equiv", "C14", [], [(T2A, """                    raise exc_for_token(
+                        token, "Could not find matching context marker."
+                    )""", """                    raise exc_for_token(
+                        token, "Could not find a matching context marker!"
+                    )""")])
+V("C14-syntaxerror-reparent", "C14", ["C14.R1"], [("formulaic/errors.py", "class FormulaSyntaxError(FormulaParsingError):", "class FormulaSyntaxError(FormulaicError):")])
+V("C14-disabled-not-skipped", "C14", ["C14.R5"], [(T2A, """                    if operator.disabled:
+                        disabled_operators.add(operator_token)
+                        continue
+""", """                    if operator.disabled:
+                        disabled_operators.add(operator_token)
+""")])
+V("C14-flag-polarity", "C14", ["C14.R5"], [(PARSER, """                disabled=DefaultFormulaParser.FeatureFlags.MULTIPART
+                not in self.feature_flags,""", """                disabled=DefaultFormulaParser.FeatureFlags.MULTIPART
+                in self.feature_flags,""")])
+V("C14-flag-wrong", "C14", ["C14.R5"], [(PARSER, """                disabled=DefaultFormulaParser.FeatureFlags.MULTISTAGE
+                not in self.feature_flags,""", """                disabled=DefaultFormulaParser.FeatureFlags.TWOSIDED
+                not in self.feature_flags,""")], "multistage enabled by the default TWOSIDED flag")
+V("C14-flag-cache-stale", "C14", ["C14.R5"], [(PARSER, """        if "operator_table" in self.__dict__:
+            del self.__dict__["operator_table"]
+""", "")])
+V("C14-merge-without-merger", "C14", ["C14.R1"], [("formulaic/parser/types/ast_node.py", """                        merger=functools.partial(
+                            node.operator.to_terms, context=context
+                        ),
+""", "")])
+V("C14-python-only-sanitise", "C14", ["C14.R6"], [("formulaic/parser/algos/sanitize_tokens.py", "        if token.kind is Token.Kind.PYTHON:\n            token.token", "        if token.kind is not Token.Kind.OPERATOR:\n            token.token")])
